@@ -479,6 +479,12 @@ func runC13(c *Ctx) {
 	}()
 
 	ruleThresholds(c, p, "C13.thresholds")
+	{
+		c.R.Rule("C13.messages", "E2 containment and gate provenance (as C17.shape / C17.gates) for every protocol message at every revision sample: each packet is encoded and decoded with exactly the fields the negotiated revision defines")
+		pairs := messagePairs(p)
+		ruleShapePairs(c, p, "C13.messages", pairs, false)
+		ruleGates(c, p, pairs, "C13.messages")
+	}
 
 	// ---- C13.params
 	rule = "C13.params"
